@@ -703,12 +703,13 @@ ctl('f1-write-under-read-lock', 'C09', 'F1', SE,
 	s.entityMutex.RLock()
 	defer s.entityMutex.RUnlock()
 """, 'Session.entities')
-ctl('f1-grid-lock-dropped', 'C09', 'F1', DG,
-    """	m.state.mutex.Lock()
-	debugInfo := m.state.SpatialPartition.GetDebugInfo()
-	m.state.mutex.Unlock()
+ctl('f1-grid-lock-dropped', 'C09', 'F1', 'modules/dagaz/state.go',
+    """func (s *State) debugInfo() SpatialDebugInfo {
+	s.mutex.Lock()
+	defer s.mutex.Unlock()
+
 """,
-    """	debugInfo := m.state.SpatialPartition.GetDebugInfo()
+    """func (s *State) debugInfo() SpatialDebugInfo {
 """, 'RegularGrid')
 ctl('f3-lock-order-inverted', 'C09', 'F3', EN,
     """func (s *EntityComponentStore) ListAll() []*hagallpb.EntityComponent {
@@ -1042,6 +1043,98 @@ ctl('b7-unchanged-pose-not-relayed', 'C02', 'B7', RT,
 ctl('c4g-flag-names-normalised', 'C17', 'C4g', 'featureflag/featureflag.go',
     """		featureFlag[Flag(f)] = struct{}{}""",
     """		featureFlag[Flag(f+"")[0:len(f)]] = struct{}{}""", 'New:verbatim')
+
+
+# ---- atomicity, thread classes, frame worker, defer-unlock
+ctl('e8-new-check-then-act', 'C07', 'E8', RT,
+    """	session.GetEntityComponents().DeleteByEntityID(entity.ID)
+	session.RemoveEntity(entity)
+	participant.RemoveEntity(entity)
+
+	respond.Send(&hagallpb.EntityDeleteResponse{""",
+    """	session.GetEntityComponents().DeleteByEntityID(entity.ID)
+	session.RemoveEntity(entity)
+	participant.RemoveEntity(entity)
+	if session.ParticipantCount() == 0 {
+		h.Sessions.Remove(ctx, session)
+	}
+
+	respond.Send(&hagallpb.EntityDeleteResponse{""", 'HandleEntityDelete:session:empty')
+ctl('f2t-session-tags-unlocked', 'C09', 'F2t', 'websocket/logs.go',
+    """func (h *handlerWithLogs) setSessionTags(sessionID, sessionUUID string, participantID uint32) {
+	h.tagsMutex.Lock()
+	defer h.tagsMutex.Unlock()
+
+""",
+    """func (h *handlerWithLogs) setSessionTags(sessionID, sessionUUID string, participantID uint32) {
+""", 'handlerWithLogs.', 'the defect fixed in the logging decorator, re-introduced')
+ctl('e6-stop-signal-droppable', 'C07', 'E6', SE,
+    """		s.frameTicker.Stop()
+		s.closeFrameChan <- struct{}{}""",
+    """		s.frameTicker.Stop()
+		select {
+		case s.closeFrameChan <- struct{}{}:
+		default:
+		}""", 'Close:signal-not-droppable')
+ctl('e6-callbacks-after-unlock', 'C08', 'E6', SE,
+    """				s.frameMutex.RLock()
+				for _, h := range s.frameHandlers {
+					h()
+				}
+				s.frameMutex.RUnlock()""",
+    """				s.frameMutex.RLock()
+				handlers := make([]func(), 0, len(s.frameHandlers))
+				for _, h := range s.frameHandlers {
+					handlers = append(handlers, h)
+				}
+				s.frameMutex.RUnlock()
+				for _, h := range handlers {
+					h()
+				}""", 'StartDispatchFrames')
+ctl('f6b-lock-held-after-panic', 'C08', 'F6b', 'modules/dagaz/state.go',
+    """func (s *State) insertQuads(quads []Quad) {
+	s.mutex.Lock()
+	defer s.mutex.Unlock()
+
+	for _, quad := range quads {
+		s.SpatialPartition.InsertQuad(quad)
+	}
+}""",
+    """func (s *State) insertQuads(quads []Quad) {
+	s.mutex.Lock()
+	for _, quad := range quads {
+		s.SpatialPartition.InsertQuad(quad)
+	}
+	s.mutex.Unlock()
+}""", 'insertQuads')
+ctl('c11-pose-applied-without-pose', 'C11', 'C11-pose', RT,
+    """	if update.Pose == nil {
+		return nil
+	}
+
+	entity.SetPose(models.Pose{
+		PX: update.Pose.Px,
+		PY: update.Pose.Py,
+		PZ: update.Pose.Pz,
+		RX: update.Pose.Rx,
+		RY: update.Pose.Ry,
+		RZ: update.Pose.Rz,
+		RW: update.Pose.Rw,
+	})""",
+    """	entity.SetPose(models.Pose{
+		PX: update.Pose.GetPx(),
+		PY: update.Pose.GetPy(),
+		PZ: update.Pose.GetPz(),
+		RX: update.Pose.GetRx(),
+		RY: update.Pose.GetRy(),
+		RZ: update.Pose.GetRz(),
+		RW: update.Pose.GetRw(),
+	})""", 'applied-only-with-pose')
+ctl('e7-join-notfound-for-live-session', 'C07', 'B4', RT,
+    """	session, ok := h.Sessions.GetByGlobalID(req.SessionId)
+	if !ok && req.SessionId != "" {""",
+    """	session, ok := h.Sessions.GetByGlobalID(req.SessionId)
+	if (!ok || len(req.SessionId) > 12) && req.SessionId != "" {""", 'HandleParticipantJoin')
 
 os.makedirs(OUT, exist_ok=True)
 bad = 0
